@@ -4,6 +4,7 @@ memorylimiterprocessor factory + processorhelper wrappers, real memorylimiterext
 
   1. TLC exhaustive design check (MemoryLimiterMC): all clauses of the statement as invariants over every
      history of checks / time advances / start-shutdown interleavings / consume calls, several configurations.
+     MemoryLimiterConc: Start/Shutdown at the granularity of the refCounterLock regions + the checker goroutine.
   2. A  TLC enumerates ALL check sequences (first reading x reading after GC) for GC intervals 0 / "very
         large" with the specified refuse/GC decision per step; replayed through CheckMemLimits() and compared.
      B  TLC samples check scripts with finite GC intervals; the driver runs them in real time and records
@@ -12,6 +13,11 @@ memorylimiterprocessor factory + processorhelper wrappers, real memorylimiterext
      C  TLC enumerates / samples scripts over start/shutdown/ticker-check/consume (processors created by
         one factory for one config: logs, metrics, traces) and over the extension's check, with the specified
         running flag and consume outcome per step; replayed on the real components and compared.
+     D  real concurrency: Shutdown of the last user and Start of another user issued from two goroutines while a
+        memory check is held inside ReadMemStatsFn (deterministic choreographies and spin-barrier races, both orders,
+        also double shutdown and three users); the recorded call/return/hold/release/observation events are explained
+        by TLC with MemoryLimiterConc (unlogged lock acquisitions searched), only executions on which
+        RunsWhileLiveUser / StopsAfterLast / NoPanic hold being followed.
 """
 import json, os, re, concurrent.futures
 import vlib
@@ -112,13 +118,16 @@ def run_driver(c, binp, mode, dcfg, behs, name, users=(), procs=1, timeout=900):
         jobs.append((inp, out, ch))
     # a forced collection is much cheaper with few Ps (measured: 0.4 ms with GOMAXPROCS=1, several ms with 16 on a
     # loaded machine); the check sequences are single-threaded anyway
-    env = dict(os.environ, GOMAXPROCS={"checks": "1", "timed": "4"}.get(mode, "8"))
+    ret_files = mode in ("timed", "timed_like_conc")
+    if mode == "timed_like_conc":
+        mode = "conc"
+    env = dict(os.environ, GOMAXPROCS={"checks": "1", "timed": "4", "conc": "4"}.get(mode, "8"))
     with concurrent.futures.ThreadPoolExecutor(max_workers=procs) as ex:
         futs = [ex.submit(c.run, [binp, mode, cfgp, inp, out] + list(users), timeout, None, None, env)
                 for inp, out, _ in jobs]
         for f in futs:
             f.result()
-    if mode == "timed":
+    if ret_files:
         return [(out, ch) for _, out, ch in jobs]
     merged = dict(behaviours=0, steps=0, gcs=0, forced_gcs=0, mismatches=[])
     for _, out, ch in jobs:
@@ -190,6 +199,130 @@ def validate_timed(c, binp, cfg, behs, name):
     return len(by_sid) - len(excluded)
 
 
+
+# ------------------------------------------------------------------------------------------------ concurrent
+CONC_USERS = ["logs", "metrics", "traces"]
+CLAUSES = {"runs": "RunsWhileLiveUser", "stops": "StopsAfterLast", "nopanic": "NoPanic"}
+
+
+def conc_mc_cfg(styles):
+    return ("SPECIFICATION CSpec\nCONSTANTS\n  Users = {\"A\", \"B\", \"C\"}\n  WaitStyles = %s\n"
+            "INVARIANT RunsWhileLiveUser\nINVARIANT StopsAfterLast\nINVARIANT NoPanic\nINVARIANT RefCountIsUsers\n"
+            "CHECK_DEADLOCK FALSE\n" % tla_set(styles))
+
+
+def conc_trace_cfg(styles, clauses):
+    return ("SPECIFICATION TSpec\nCONSTANTS\n  Users = %s\n  WaitStyles = %s\n  Clauses = %s\n"
+            "CONSTRAINT Follow\nPOSTCONDITION Accepted\nCHECK_DEADLOCK FALSE\n" % (
+                tla_set(CONC_USERS), tla_set(styles), tla_set(clauses)))
+
+
+def conc_scripts(q):
+    """The concurrent start/shutdown choreographies (users L, M, T share one limiter)."""
+    L, M, T = CONC_USERS
+    st = lambda u: dict(k="start", u=u)
+    sd = lambda u: dict(k="shutdown", u=u)
+    H, R, J, O = dict(k="hold"), dict(k="release"), dict(k="join"), dict(k="obs")
+
+    def par(mode, ops, w):
+        return dict(k="par", mode=mode, wait_ms=w, ops=[dict(op=o, u=u) for o, u in ops])
+    out = []
+    for w in ([100] if q else [100, 300]):
+        # Start of another user while the last user's Shutdown waits for a held check (and the other order)
+        out.append([st(L), H, par("choreo", [("shutdown", L), ("start", M)], w), R, J, O, sd(M), O])
+        out.append([st(L), H, par("choreo", [("start", M), ("shutdown", L)], w), R, J, O, sd(M), O])
+        out.append([st(L), H, par("choreo", [("shutdown", L), ("start", M), ("start", T)], w), R, J, O, sd(M), O, sd(T), O])
+        out.append([st(L), st(M), H, par("choreo", [("shutdown", L), ("shutdown", M), ("start", T)], w), R, J, O, sd(T), O])
+        out.append([st(L), H, par("choreo", [("shutdown", L), ("start", M)], w), R, J, O, st(T), O, sd(M), O, sd(T), O])
+    for rep in range(2 if q else 10):
+        for ops in ([("shutdown", L), ("start", M)], [("start", M), ("shutdown", L)]):
+            out.append([st(L), H, par("barrier", ops, 30), R, J, O, sd(M), O])                 # race, check held
+            out.append([st(L), par("barrier", ops, 5), J, O, sd(M), O])                        # race, checker idle
+        for ops in ([("shutdown", L), ("shutdown", M)], [("shutdown", M), ("shutdown", L)]):
+            out.append([st(L), st(M), H, par("barrier", ops, 30), R, J, O])
+        out.append([st(L), st(M), H, par("barrier", [("shutdown", L), ("start", T), ("shutdown", M)], 30), R, J, O, sd(T), O])
+    return [dict(steps=x) for x in out]
+
+
+def conc_record(c, binp, scripts, name, procs=8):
+    """Run the scripts (split over processes: the goroutine dump is process wide).  Returns {sid: [lines]}."""
+    dcfg = drv_cfg(FIXED, INF_NS, INF_NS, check_ns=10**6)
+    res = run_driver(c, binp, "timed_like_conc", dcfg, scripts, name, users=CONC_USERS, procs=procs, timeout=900)
+    by_sid = {}
+    nxt = 0
+    for out, chunk in res:
+        local = {}
+        for ln in open(out).read().splitlines():
+            e = json.loads(ln)
+            if e["ev"] == "end":
+                continue
+            if e["ev"] == "reset":
+                cur = e["sid"]
+            local.setdefault(cur, []).append(e)
+        if len(local) != len(chunk):
+            raise vlib.Inconclusive("conc driver recorded %d of %d scripts" % (len(local), len(chunk)))
+        for k in sorted(local):
+            evs = local[k]
+            evs[0]["sid"] = nxt
+            by_sid[nxt] = (chunk[k], evs)
+            nxt += 1
+    return by_sid
+
+
+def conc_judge(c, by_sid, styles, clauses, label):
+    """TLC looks for an execution explaining every trace.  Returns the sids it could not explain."""
+    rejected = []
+    for attempt in range(6):
+        keep = [sid for sid in sorted(by_sid) if sid not in rejected]
+        lines, owner = [], []
+        for sid in keep:
+            for e in by_sid[sid][1]:
+                lines.append(json.dumps(e, separators=(",", ":")))
+                owner.append(sid)
+        lines.append('{"ev":"end"}')
+        r = c.tlc("MemoryLimiter", "MemoryLimiterConcTrace", cfg_text=conc_trace_cfg(styles, clauses), workers=1, dfs=True,
+                  files={"observed.ndjson": "\n".join(lines) + "\n"}, timeout=600, label="%s_%d" % (label, attempt),
+                  count=False, heap="4g")
+        if r.timed_out:
+            raise vlib.Inconclusive("concurrent trace validation timed out")
+        if r.ok:
+            return rejected
+        m = re.search(r'"REJECTED_AT", (\d+), (\d+)', r.out)
+        if not m:
+            raise vlib.Inconclusive("concurrent trace validation failed without a verdict: %s" % r.out[-1500:])
+        at = int(m.group(1))
+        rejected.append(owner[min(at, len(owner)) - 1])
+    return rejected
+
+
+def validate_conc(c, binp, scripts, name, confirm=True):
+    by_sid = conc_record(c, binp, scripts, name)
+    c.sample(dict(kind="concurrent start/shutdown trace explained by TLC", script=by_sid[0][0], trace=by_sid[0][1]))
+    both = ["locked", "unlocked"]
+    bad = conc_judge(c, by_sid, both, list(CLAUSES), "conc_mon_" + name)
+    for sid in bad:
+        script, evs = by_sid[sid]
+        one = {0: (script, [dict(e, sid=0) if e["ev"] == "reset" else e for e in evs])}
+        if conc_judge(c, one, both, [], "conc_any_%s_%d" % (name, sid)):
+            c.model_drift("concurrent trace not explainable by the lock-region model even without the statement's clauses: %s" % evs)
+            continue
+        failing = [CLAUSES[k] for k in CLAUSES if conc_judge(c, one, both, [k], "conc_%s_%s_%d" % (k, name, sid))]
+        what = ("no execution of the lock-region model on which the statement holds explains the real run "
+                "(clauses that cannot hold: %s): %s" % (", ".join(failing) or "only jointly", evs))
+        if confirm:
+            again = conc_record(c, binp, [script, script], "%s_confirm%d" % (name, sid), procs=2)
+            if not conc_judge(c, again, both, list(CLAUSES), "conc_confirm_%s_%d" % (name, sid)):
+                c.log("unconfirmed rejection of concurrent script %d (not repeated in 2 re-runs)" % sid)
+                c.extra.setdefault("unconfirmed_rejections", []).append(dict(script=script, observed=evs))
+                continue
+        c.violation(what, replay_obj=dict(mode="conc", steps=script, observed=evs))
+    good = {sid: v for sid, v in by_sid.items() if sid not in bad}
+    for sid in conc_judge(c, good, ["locked"], [], "conc_strict_" + name):
+        c.model_drift("concurrent trace needs a Start/Shutdown inside another Shutdown's wait (lock not held across the wait): %s"
+                      % good[sid][1])
+    return len(good)
+
+
 # ------------------------------------------------------------------------------------------------ main
 def run(c):
     q = c.quick()
@@ -202,7 +335,9 @@ def run(c):
         # a minimal design run keeps the evidence well-formed
         c.tlc_must_pass("MemoryLimiter", "MemoryLimiterMC",
                         cfg_text=mc_cfg(FIXED, 3, 1, 5, ["logs"], [1, 2], ["ok"], "small"), timeout=300, label="design")
-        if rp["mode"] == "timed":
+        if rp["mode"] == "conc":
+            total += validate_conc(c, binp, [rp["steps"]] * 2, "replay", confirm=False)
+        elif rp["mode"] == "timed":
             total += validate_timed(c, binp, rp["cfg"], [rp["steps"]], "replay")
         else:
             res = run_driver(c, binp, rp["mode"], rp["cfg"], [rp["steps"]], "replay", users=rp.get("users", ()))
@@ -227,6 +362,17 @@ def run(c):
         r = c.tlc_must_pass("MemoryLimiter", "MemoryLimiterMC", cfg_text=txt, coverage=True, timeout=1200,
                             label="design_" + name)
         c.log("design %s: %d distinct / %d generated states, %.1fs" % (name, r.distinct, r.generated, r.wall))
+
+    # lock-region model of Start/Shutdown: holds with the code's locking; with the lock released around the wait TLC
+    # must find the Start-inside-the-last-Shutdown's-wait interleaving (control that the model reaches it)
+    r = c.tlc_must_pass("MemoryLimiter", "MemoryLimiterConcMC", cfg_text=conc_mc_cfg(["locked"]), coverage=True, timeout=300,
+                        label="design_conc", vacuous_ok=("HoldCheck", "Release") if False else ())
+    c.log("design conc: %d distinct / %d generated states" % (r.distinct, r.generated))
+    r = c.tlc("MemoryLimiter", "MemoryLimiterConcMC", cfg_text=conc_mc_cfg(["locked", "unlocked"]), timeout=300,
+              label="design_conc_control", count=False)
+    if r.timed_out or not r.error or r.error[0] != "invariant":
+        raise vlib.Inconclusive("control: the lock-region model does not reach the Start-during-wait interleaving: %s" % (r.error,))
+    c.extra["conc_control"] = "unlocked wait: TLC finds %s violated" % r.error[1]
 
     binp = c.go_build("memlimiter", pkg="./cmd")
 
@@ -310,9 +456,17 @@ def run(c):
         c.sample(dict(kind="replayed wrapper script (%s)" % name, steps=behs[len(behs) // 2]))
         c.log("%s: replayed %d scripts, %d steps, %d mismatches" % (name, len(behs), res["steps"], len(res["mismatches"])))
 
+    # ---------------------------------------------------------------- 2D. concurrent start/shutdown, TLC explains
+    scripts = conc_scripts(q)
+    nconc = validate_conc(c, binp, scripts, "D")
+    total += nconc
+    nontrivial += nconc
+    c.log("D: %d concurrent start/shutdown runs recorded, %d explained by TLC (statement clauses enforced)" % (len(scripts), nconc))
+
     c.traces_validated = total
     c.evaluations = total
     c.extra["timed_traces_validated_by_tlc"] = nval
+    c.extra["concurrent_traces_validated_by_tlc"] = nconc
     c.assumptions += [
         "readings are injected through the exported memorylimiter.ReadMemStatsFn; a forced collection is observed through "
         "the Go runtime's forced-GC cycle counter and through the re-measurement",
